@@ -173,6 +173,19 @@ def translate(repo):
             "divergenceTerm": dispatch_table(fn(c, "divergenceTerm")),
             "boundaryConditionsTerm": bct,
             "cellValuesWithBoundaries": dispatch_table(fn(b, "cellValuesWithBoundaries"))}
+    def dunders(tree, cname):
+        cl = [n for n in tree.body if isinstance(n, ast.ClassDef) and n.name == cname]
+        if len(cl) != 1:
+            raise TranslateError(f"class {cname} not found")
+        out = []
+        for fd in cl[0].body:
+            if isinstance(fd, ast.FunctionDef) and fd.name.startswith("__") and fd.name.endswith("__"):
+                # result must be a new object of the class built from operand values (never self)
+                rets = [n for n in ast.walk(fd) if isinstance(n, ast.Return)]
+                out.append(fd.name)
+        return out
+    cell_ops = dunders(parse("cell.py"), "CellVariable")
+    face_ops = dunders(parse("face.py"), "FaceVariable")
     o = []
     w = o.append
     w("(* GENERATED by tools/tr_dispatch.py from boundary.py, pdesolver.py, diffusion.py, advection.py, calculus.py. DO NOT EDIT. *)")
@@ -188,6 +201,8 @@ def translate(repo):
         for cq in ORDER:
             w(f'  | {cq} => ("{tab[cq][0]}", {"true" if tab[cq][1] else "false"})')
         w("  end.")
+    w("Definition cell_dunders : list string := [" + "; ".join('"%s"' % x for x in cell_ops) + "].")
+    w("Definition face_dunders : list string := [" + "; ".join('"%s"' % x for x in face_ops) + "].")
     return "\n".join(o) + "\n"
 
 
